@@ -398,7 +398,7 @@ pub fn run(args: &Args) -> i32 {
         return mon.finish();
     }
     let n_shards = 64u64;
-    let per_shard = args.scale(2_500_000, 30_000_000);
+    let per_shard = args.scale(5_000_000, 60_000_000);
     let sweep_parts = if args.is_thorough() { 64 } else { 64 * 8 };
     vcommon::monitor::run_shards(&mut mon, args.threads, n_shards, |shard, m| {
         if shard == 0 {
